@@ -24,6 +24,9 @@ CLAIMED = {
  "C15": ("exploration", "e2e", "property-based end-to-end boundary testing around both size limits with Content-Length and chunked framing",
          "Body lengths at and around 100 KiB and (for the two exempt uploads in any letter case) 100 MiB, declared or chunked; over the limit: 4xx and zero bytes at the mock; at or under: relayed intact.",
          "Trusts limit_ref derived from the statement; the 100 MiB class is sampled thinly in the quick tier (about 1% of cases).", "4 C15"),
+ "C06": ("exploration", "ebpfsim", "property-based stateful testing of the unmodified kernel program compiled for user space against a model of the documented helper/map semantics, differential against a Rust reference model; the agent's own encoders/decoders run on the program's bytes",
+         "Histories of policy updates, connect4 runs, tcp_connect kprobe runs (interleaved between tasks), aborts and agent-side accepts; rewritten iff protected and not the agent; record iff rewritten, decoding to uid/tgid/(uid==0)/original destination through the agent's own structs; layout sizes compared with the agent's arrays.",
+         "The user-space model of BPF helpers/maps is the documented semantics, not the kernel: verifier acceptance, attachment and real LRU behaviour are outside it.", "4 C06"),
  "C07": ("exploration", "e2e", "property-based stateful (history) testing against a model of single-use records; lookup/remove trace of the stand-in audit map",
          "Generated histories of Open (fresh or reused source port, with or without record) / Request / Overwrite / Close / concurrent Batch over 5 identities whose IMDS rules make every decision reveal whose claims were used; model port -> pending record; trace must show lookup then remove at accept.",
          "Trusts that SO_LINGER 0 + explicit bind reproduces source-port reuse; the stand-in audit map's trace.", "4 C07"),
@@ -84,6 +87,7 @@ m = {
  },
  "engines": [
    {"name": "e2e", "path": "harness/src/bin/e2e.rs", "serves_properties": ["C01", "C03", "C04", "C05", "C07", "C11", "C13", "C14", "C15"], "kind_free_text": "real ProxyServer in a private network+mount namespace, mock metadata hosts on the real addresses, raw HTTP client with stand-in attribution records; proptest-generated cases"},
+   {"name": "ebpfsim", "path": "harness/src/bin/ebpfsim.rs", "serves_properties": ["C06"], "kind_free_text": "unmodified linux-ebpf/ebpf_cgroup.c compiled with clang against shim headers + C model of helpers/maps (harness/build.rs, harness/csrc), driven from Rust"},
    {"name": "keeper", "path": "harness/src/bin/keeper.rs", "serves_properties": ["C09", "C10", "C12", "C13", "C16"], "kind_free_text": "real KeyKeeper / shared-state actors against a reference secure-channel host in a private namespace; owned-schedule executor for schedule properties"},
    {"name": "pure", "path": "harness/src/bin/pure.rs", "serves_properties": ["C02", "C03", "C04", "C19", "C20"], "kind_free_text": "in-process proptest runners over the agent's public functions with independent reference models"},
  ],
